@@ -360,6 +360,9 @@ func c05(ctx *Ctx) (*Outcome, error) {
 	for i := 0; i < 2; i++ {
 		cases = append(cases, legacyNumericKeywordCase(i))
 	}
+	for i := 0; i < 72; i++ {
+		cases = append(cases, emptyIntervalCase(i))
+	}
 	n := ctx.N(150, 4000)
 	for i := 0; i < n; i++ {
 		r := sg.NewRng(ctx.Seed, fmt.Sprintf("C05-case-%d", i))
